@@ -221,26 +221,26 @@ where
         + AccountSetCleanup<()>
         + 'static,
 {
+    // The decoded set survives a failed validation (as in a program that handles the error): its
+    // default cleanup (for borsh: `serialize()`) can still be run by a later `cleanup` op.
     match tseeds {
         None => {
             let mut set: Init<Signer<AS>> = try_decode1(info)?;
-            if if_needed {
-                set.validate_accounts(CreateIfNeeded(c), ctx)?;
-            } else {
-                set.validate_accounts(Create(c), ctx)?;
-            }
-            let needed = set.needed_init();
-            Ok((format!("ok needed={}", needed as u8), Box::new(move |ctx: &mut Context| set.cleanup_accounts((), ctx))))
+            let r = if if_needed { set.validate_accounts(CreateIfNeeded(c), ctx) } else { set.validate_accounts(Create(c), ctx) };
+            let ans = match r {
+                Ok(()) => format!("ok needed={}", set.needed_init() as u8),
+                Err(e) => err_class(e),
+            };
+            Ok((ans, Box::new(move |ctx: &mut Context| set.cleanup_accounts((), ctx))))
         }
         Some(raw) => {
             let mut set: Init<Seeded<AS, RawSeeds>> = try_decode1(info)?;
-            if if_needed {
-                set.validate_accounts((CreateIfNeeded(c), Seeds(raw)), ctx)?;
-            } else {
-                set.validate_accounts((Create(c), Seeds(raw)), ctx)?;
-            }
-            let needed = set.needed_init();
-            Ok((format!("ok needed={}", needed as u8), Box::new(move |ctx: &mut Context| set.cleanup_accounts((), ctx))))
+            let r = if if_needed { set.validate_accounts((CreateIfNeeded(c), Seeds(raw)), ctx) } else { set.validate_accounts((Create(c), Seeds(raw)), ctx) };
+            let ans = match r {
+                Ok(()) => format!("ok needed={}", set.needed_init() as u8),
+                Err(e) => err_class(e),
+            };
+            Ok((ans, Box::new(move |ctx: &mut Context| set.cleanup_accounts((), ctx))))
         }
     }
 }
@@ -812,7 +812,24 @@ pub fn run_case(rec: &mut Recorder, header: &str, lines: &[String]) {
     rec.case(header);
     let mut case = Case::new();
     let mut nontrivial = false;
+    // target as it was before the last init op, when that op failed on an initialized account
+    let mut failed_init: Option<(Pubkey, AcctSpec)> = None;
     for l in lines {
+        if l == "cleanup" {
+            if let Some((k, t0)) = failed_init.take() {
+                let pre = case.snapshot();
+                let ans = exec_line(&mut case, l);
+                rec.op(l, &ans);
+                let post = case.snapshot();
+                let (t1, t2) = (find(&pre, &k), find(&post, &k));
+                // cleanup after a failed create is the identity on the account: bytes, length and owner
+                // are those before the failed call, and the cleanup itself moves no lamports
+                if ans != "bad-op" && (t2.data != t0.data || t2.owner != t0.owner || t2.lamports != t1.lamports || total(&pre) != total(&post)) {
+                    rec.fail("failed_create_then_cleanup_clobbers_account", &format!("cleanup after failed init on {}: data {} -> {}, lamports {} -> {}", khex(&k), hex(&t0.data), hex(&t2.data), t1.lamports, t2.lamports));
+                }
+                continue;
+            }
+        }
         let is_init = l.starts_with("init ");
         let is_clean = l.starts_with("clean ");
         let is_set = l.starts_with("set ");
@@ -830,6 +847,15 @@ pub fn run_case(rec: &mut Recorder, header: &str, lines: &[String]) {
                 let other = if cached { last_set.map(|i| before[i].key) } else { case.funder.as_ref().map(|(i, _)| before[*i].key) };
                 let head = ans.split(" cpis=").next().unwrap_or("").to_string();
                 rec.bump(&format!("{}:{}", if is_init { "init" } else if is_set { "set" } else { "clean" }, head));
+                if is_init {
+                    failed_init = None;
+                    if let (Some(op), true) = (parse_init(l), ans.starts_with("err:")) {
+                        let t0 = find(&before, &op.tgt).clone();
+                        if t0.owner != SYS || !t0.data.is_empty() {
+                            failed_init = Some((op.tgt, t0));
+                        }
+                    }
+                }
                 if is_set {
                     oracle_set(rec, case.rent, l, &ans, &before, &after);
                 } else if is_init {
@@ -1000,7 +1026,7 @@ fn c12_case(id: usize, rng: &mut Rng, rent: (u64, u64), ty: &str, if_needed: boo
     (header, lines)
 }
 
-const C12_RULE: &str = "grid: target state (0 lamports; pre-funded below/at/above rent; owned by the program with zero / set / wrong discriminant; owned by a third program with data shorter / longer than the discriminant, zero or non-zero; System-owned with data; program-owned with 0 lamports) x funder (plain signer, seeded signer; argument or context cache) x account type (zero-copy pod, zero-copy list, borsh) x Create / CreateIfNeeded x initial values (default + random) x 3 rent parameter sets x seeded / keypair target, each followed by cleanup and a second Create and CreateIfNeeded on the result; plus twists (read-only target, unsigned target, poor funder, unsigned funder, seeds without the bump slot, seeds of another address, missing funder cache, funder owned by a third program, funder with data, target funding itself, funder cache set twice) and PRNG-drawn mixes. A case is non-trivial when an init op issued a CPI, returned an error / panicked, or changed the world; distinct by case text hash.";
+const C12_RULE: &str = "grid: target state (0 lamports; pre-funded below/at/above rent; owned by the program with zero / set / wrong discriminant; owned by a third program with data shorter / longer than the discriminant, zero or non-zero; System-owned with data; program-owned with 0 lamports) x funder (plain signer, seeded signer; argument or context cache) x account type (zero-copy pod, zero-copy list, borsh) x Create / CreateIfNeeded x initial values (default + random) x 3 rent parameter sets x seeded / keypair target, each followed by the set's default cleanup (also after a FAILED init: the account must be left exactly as it was) and a second Create and CreateIfNeeded on the result; plus twists (read-only target, unsigned target, poor funder, unsigned funder, seeds without the bump slot, seeds of another address, missing funder cache, funder owned by a third program, funder with data, target funding itself, funder cache set twice) and PRNG-drawn mixes. A case is non-trivial when an init op issued a CPI, returned an error / panicked, or changed the world; distinct by case text hash.";
 
 pub fn run_c12(args: &Args) {
     let mut rec = Recorder::new(C12_RULE);
